@@ -29,7 +29,7 @@
 (***************************************************************************)
 EXTENDS RespReader
 
-CONSTANTS Versions, CTypes, AEs, Pres, Lens, Fill, MaxOps
+CONSTANTS Methods, Versions, CTypes, AEs, Pres, Lens, Fill, MaxOps
 
 VARIABLES cfg, written, nops, fin, run, step
 vars == <<cfg, written, nops, fin, run>>
@@ -44,7 +44,7 @@ InitWith(c) ==
     /\ fin = FALSE
     /\ run = "running"
     /\ step = [act |-> "init", args |-> <<>>, exp |-> [raised |-> FALSE]]
-InitState == \E c \in [version : Versions, ctype : CTypes, ae : AEs, pre : Pres] : InitWith(c)
+InitState == \E c \in [method : Methods, version : Versions, ctype : CTypes, ae : AEs, pre : Pres] : InitWith(c)
 
 Running == run = "running"
 
@@ -119,6 +119,18 @@ Transparent(P, gz) ==
     /\ enc => Compressible(cfg.ctype) /\ MentionsGzip(cfg.ae)
     /\ IF enc THEN gz.used /\ gz.ok /\ gz.enc = P.body /\ gz.dec = Expand(written)
               ELSE P.body = Expand(written)
+
+(* HEAD (C02: "a Content-Length always equals the length of the body a GET would carry"; the output
+   transforms are part of what a GET carries).  PH = the response to HEAD, PG = the response the same
+   handler program gives to GET under the same configuration, both delimited by the reader. *)
+HeadMatchesGet(PH, PG) ==
+    LET cl == ValuesOf(PH.hdrs, N_content_length) IN
+    /\ PH.ok /\ PH.complete /\ PH.rest = <<>> /\ PH.body = <<>> /\ PH.code = 200
+    /\ PG.ok /\ PG.complete /\ PG.code = 200
+    /\ ~HasHeader(PH, N_transfer_encoding)
+    /\ ListHas(ValuesOf(PH.hdrs, N_vary), V_accept_encoding)
+    /\ ValuesOf(PH.hdrs, N_content_encoding) = ValuesOf(PG.hdrs, N_content_encoding)
+    /\ Len(cl) > 0 => DecVal(cl[1]) = Len(PG.body)
 
 (* properties of the model itself *)
 TypeOK == fin \in BOOLEAN /\ run \in {"running", "raised", "ended"} /\ nops \in 0..MaxOps
